@@ -390,3 +390,12 @@ def distinct_nontrivial(trace_path, state_ops, obs_ops):
         if any(o in state_ops for o in ops) and any(o in obs_ops for o in ops):
             seen.add(hashlib.sha1("\n".join(h).encode()).hexdigest())
     return len(seen)
+
+
+def run_reports(cwd, module, cfg, trace_path, env=None, timeout=1200):
+    """Runs a monitor-style trace module over the whole trace in one TLC process; returns (consumed, [REPORT lines])."""
+    lines = read_trace(trace_path)
+    r, n, consumed = _validate_one(cwd, module, cfg, lines, env, 999, timeout)
+    if consumed is None or consumed < n:
+        raise Inconclusive("monitor module %s stopped at event %s of %d:\n%s" % (module, consumed, n, r.out[-2500:]))
+    return r, [s for s in r.printed("REPORT")]
